@@ -9,6 +9,33 @@ type propInfo struct {
 }
 
 var propTable = map[string]propInfo{
+	"C01": {"proof", "The syntactic sufficient condition for behaviour preservation is stated as contracts and discharged: (a) every parse function stores the token it consumes verbatim in the node it builds ([node] clauses: Token == the current token at entry, Operator/Value == its literal, children == the results of the sub-parses, compound assignment operator '+'/'-' from the token type); (b) every printer re-emits its node's tokens and children in source order -- the [syntax] clause of each of the 29 WriteTo methods fixes the exact sequence of code-writer calls (leading comments, mapping, token text, children, brackets, semicolon), loops by per-iteration trace contracts; (c) Compile prints the program exactly once through a fresh writer and returns the writer's text unprocessed in compact mode.", []string{
+		"Meta M5: equal token streams with equal literal values and statement boundaries give equal behaviour (XJS is a subset of JavaScript); no JavaScript engine is modelled",
+		"depends on the verdicts of C02 (tree shape), C03 (parenthesisation/fusion) and C07 (literal values); token fusion in compact output (`a - -b`) is not covered by a contract in this revision",
+		"printers are verified for well-formed trees ([wf] hypotheses: mandatory children non-nil)",
+	}},
+	"C02": {"proof", "Mechanism contracts of the Pratt parser, discharged on the real functions: the package-level binding-power table equals the ECMAScript precedence classes jsLevel (proved for package initialisation) and is copied unchanged into every parser; the climbing loop continues only while the next token binds strictly tighter than the requested level, never past ';' nor across a line break before '++'/'--' (restricted production), and stops only when that condition fails ([climb.strict]/[climb.exit]); operand levels: binary = own level (left associative), assignment/compound assignment = lowest again (right associative), unary = UNARY, member property = MEMBER, grouping/index = lowest; statement dispatch equals the subset grammar's table; statement termination (explicit ';', end/'}' without consuming, line break before a statement-starting token, error on the same line in strict mode); `return` takes no operand across a line break. Two genuine defects (restricted productions) found and fixed.", []string{
+		"Meta M1: table + strict loop + operand-at-own-level implies the stratified left-associative grammar (Pratt-parser correctness); completeness over the whole subset grammar ('parsing succeeds for every program') is out of reach of function contracts",
+		"AfterNewline comes from C10's [nl] clause",
+	}},
+	"C03": {"proof", "Printer/parser agreement and parenthesisation as contracts: operatorPrecedence equals astLevel for every token type; astLevel equals the parser's jsLevel and the two constant blocks are member-wise equal (cross-package lemma unit); each Precedence() method returns its node kind's class; BinaryExpression/UnaryExpression/PostfixExpression bracket an operand exactly when the stratified-grammar rule demands it (left: strictly looser, right: looser or equal, unary/postfix operand: strictly looser), with the Precedence() queries made on the right children; GroupedExpression always brackets and is atomic; assignment values are parsed right-associatively and printed without brackets (C02 [operand.level]).", []string{
+		"Meta M2: print-then-parse = identity by induction over trees from the per-node clauses and the Pratt lemma (M1); 'compiling is a fixed point' is a corollary",
+		"token fusion in compact output (`1 - -2` printed as `1--2`, `a + ++b`) and the statement-start hazard (an expression statement beginning with `{` or `function`) are NOT covered by a contract in this revision: they need first/last-character classes of child output",
+	}},
+	"C06": {"proof", "Layout-only behaviour of the code writer and the printers: WriteSpace/WriteNewline/WriteIndent/IncreaseIndent/DecreaseIndent write nothing, record no mapping and are no-ops in compact mode; deferred layout consists of ' ', newline and indentation markers only and is written by flushPending once each, in order; WriteSemi emits ';' iff compact or WriteSemicolons and nothing else otherwise; every printer leaves IndentLevel as it found it; options (PrettyPrint, IndentString, WriteSemicolons) are outside every modifies clause; the [syntax] clause of each printer is stated over the token events only (layout calls ignored), hence identical for every option combination; Compile post-processes iff pretty printing is on.", []string{
+		"'formatting the formatted output reproduces it' needs parse-then-print and the trivia round trip (Meta M2); not mechanised",
+		"separator safety without semicolons (`if (a) b else c`, statements starting with ( [ - or a backtick) is not covered by a contract in this revision; cleanEmptyLines is only verified for safety (its effect inside multi-line literals is a known weakness, see DESIGN)",
+	}},
+	"C08": {"proof", "Position invariant J (the mapper's cursor equals the generated position of the writer's write history, where a string write advances like AdvanceString and a byte write is a column step or a line break) is required and ensured by every code-writer method and every printer, in compact and pretty mode (after the fix that routes layout whitespace and comments through the mapper); AddMapping/AddNamedMapping flush deferred layout first and record exactly (current generated position -> given source position[, name]); in every printer the mapping of a token is immediately followed by that token's text ([syntax] sequences), identifiers record a named mapping with their own name; Compile attaches a fresh mapper per call. Token start positions are C10's, the mappings string is C09's.", []string{
+		"generated positions are defined per write (a '\\r' ending one write and a '\\n' starting the next count as two breaks); columns are bytes, i.e. the proof assumes ASCII output (Source Map v3 counts UTF-16 units)",
+		"cleanEmptyLines (pretty mode) may trim leading/trailing whitespace after the map was produced; its effect on positions is not covered",
+		"single characters are written with WriteRune only for ASCII other than CR (precondition checked at every call site)",
+	}},
+	"C15": {"proof", "Trivia pipeline as contracts: the lexer attaches the comment/blank-line list to the next token (C10 [trivia]); the parser stores consumed tokens verbatim, including the closing-brace token of blocks ([node]/[rbrace] clauses); each printer replays the leading comments of every token it stores exactly once, immediately before that token's mapping and text ([syntax] sequences, incl. the comments before a closing brace/bracket/parenthesis); WriteLeadingComments writes nothing in compact mode and nothing for an empty list, and in pretty mode leaves the writer on a fresh line (pending newline + indentation), so comment text cannot run into code.", []string{
+		"placement 'in front of the same statement' end-to-end is the induction over the tree (Meta M2)",
+		"comments before the end of input are attached to the EOF token, for which Program has no field: they are dropped (known gap, needs an API change; not expressed as an obligation)",
+		"'verbatim' is up to trailing spaces (trimmed by the lexer and by cleanEmptyLines)",
+	}},
 	"C16": {"proof", "Every parse function of package parser (statement, expression, prefix, infix, list and helper functions, the interceptor wrappers, the registered-operator closures and the constructor) is verified against the frame contract [ctx]: the context stack on return equals the stack on entry, element-wise, on every return path including early error returns (deferred pops are executed by the engine's defer semantics). PushContext/PopContext/CurrentContext/IsInFunction are verified against exact sequence specifications (append, drop-last, last element, membership). Bracketing is stated as call-site obligations: every statement parsed inside ParseBlockStatement sees entry++[Block], the body of a function declaration/expression is parsed with entry++[Function], and no other parse step changes the stack around its sub-steps ([ctx.stable] at every call). newWithOptions/Build establish [Global]; by the frame contract ParseProgram returns with the stack it started with, for every input.", []string{
 		"the 'actual syntactic nesting' is the parser's own recursion: the contracts show the stack equals the chain of enclosing block/function activations (induction over the call tree, Meta M2, not mechanised); whether those activations are ECMAScript's nesting is property C02",
 		"reading fixed in DESIGN.md: a function body is a block inside a function, so directly inside a function body CurrentContext() is BlockContext and IsInFunction() is true",
@@ -72,6 +99,17 @@ func propAssumptions(w *World, p string, keys []string) []string {
 	for _, k := range keys {
 		if c := w.Contracts[k]; c != nil && c.Trusted {
 			out = append(out, fmt.Sprintf("contract of %s is trusted (assumed, body not verified)", k))
+		}
+		if c := w.Contracts[k]; c != nil {
+			for _, cl := range c.Requires {
+				if cl.Assumed {
+					h := fmt.Sprintf("hypothesis [%s] of %s is assumed on entry and not demanded of callers: %s", cl.Label, k, cl.Text)
+					if len(h) > 300 {
+						h = h[:300] + "..."
+					}
+					out = append(out, h)
+				}
+			}
 		}
 	}
 	out = append(out, "receivers of methods under contract are non-nil (checked at every call site inside the verified packages)")
